@@ -54,6 +54,7 @@ package logical
 //@ func groupSignGenerator.addWitnessForce
 //@   property C15
 //@   requires gs != nil && gs.witnessSignMap != nil
+//@   ensures [fresh]  !old(has(gs.witnessSignMap, hexOf(id))) ==> add
 //@   ensures [added]  add ==> !old(has(gs.witnessSignMap, hexOf(id))) && has(gs.witnessSignMap, hexOf(id)) && gs.witnessSignMap[hexOf(id)] == signature
 //@   ensures [dup]    !add ==> has(gs.witnessSignMap, hexOf(id)) == old(has(gs.witnessSignMap, hexOf(id))) && gs.witnessSignMap[hexOf(id)] == old(gs.witnessSignMap[hexOf(id)])
 //@   ensures [others] forall k string :: k != hexOf(id) ==> has(gs.witnessSignMap, k) == old(has(gs.witnessSignMap, k)) && gs.witnessSignMap[k] == old(gs.witnessSignMap[k])
@@ -62,6 +63,8 @@ package logical
 //@ func groupSignGenerator.AddWitnessSign
 //@   property C15
 //@   requires gs != nil && gs.witnessSignMap != nil
+//@   ensures [recovered] old(sigValid(gs.groupSign)) ==> !add
+//@   ensures [fresh]  !old(sigValid(gs.groupSign)) && !old(has(gs.witnessSignMap, hexOf(id))) ==> add
 //@   ensures [added]  add ==> !old(has(gs.witnessSignMap, hexOf(id))) && has(gs.witnessSignMap, hexOf(id)) && gs.witnessSignMap[hexOf(id)] == signature
 //@   ensures [dup]    !add ==> has(gs.witnessSignMap, hexOf(id)) == old(has(gs.witnessSignMap, hexOf(id))) && gs.witnessSignMap[hexOf(id)] == old(gs.witnessSignMap[hexOf(id)])
 //@   ensures [others] forall k string :: k != hexOf(id) ==> has(gs.witnessSignMap, k) == old(has(gs.witnessSignMap, k)) && gs.witnessSignMap[k] == old(gs.witnessSignMap[k])
@@ -80,4 +83,6 @@ package logical
 //@   requires r.gSignGenerator != nil && r.rSignGenerator != nil && r.gSignGenerator != r.rSignGenerator && r.gSignGenerator.witnessSignMap != nil && r.rSignGenerator.witnessSignMap != nil && r.gSignGenerator.witnessSignMap != r.rSignGenerator.witnessSignMap
 //@   ensures [bind]   forall k string :: has(r.gSignGenerator.witnessSignMap, k) && !old(has(r.gSignGenerator.witnessSignMap, k)) ==> istype(msg, *model.ConsensusVerifyMessage) && k == hexOf(unbox(msg, *model.ConsensusVerifyMessage).SignInfo.signerID) && sigOK(memberPK(idOf(bytes(r.bh.GroupId)), unbox(msg, *model.ConsensusVerifyMessage).SignInfo.signerID), bytes(r.bh.Hash), r.gSignGenerator.witnessSignMap[k])
 //@   ensures [beacon] forall k string :: has(r.rSignGenerator.witnessSignMap, k) && !old(has(r.rSignGenerator.witnessSignMap, k)) ==> istype(msg, *model.ConsensusVerifyMessage) && k == hexOf(unbox(msg, *model.ConsensusVerifyMessage).SignInfo.signerID) && sigOK(memberPK(idOf(bytes(r.bh.GroupId)), unbox(msg, *model.ConsensusVerifyMessage).SignInfo.signerID), old(bytes(r.preBH.Random)), r.rSignGenerator.witnessSignMap[k])
+//@   # a block share is counted only together with the sender's beacon share (unless the beacon value is already recovered)
+//@   ensures [pair]   forall k string :: has(r.gSignGenerator.witnessSignMap, k) && !old(has(r.gSignGenerator.witnessSignMap, k)) ==> has(r.rSignGenerator.witnessSignMap, k) || old(sigValid(r.rSignGenerator.groupSign))
 //@   ensures [keep]   forall k string :: old(has(r.gSignGenerator.witnessSignMap, k)) ==> has(r.gSignGenerator.witnessSignMap, k) && r.gSignGenerator.witnessSignMap[k] == old(r.gSignGenerator.witnessSignMap[k])
